@@ -34,6 +34,9 @@ func init() {
 				if i%4 == 1 {
 					out[i].NCPU = []int{3, 5, 7, 6}[(i/4)%4] // the shards with the 1025-opening base see several CPUs
 				}
+				if i%4 == 3 {
+					out[i].NCPU = []int{2, 8, 3, 16}[(i/4)%4] // and so do the shards with the 4097-opening base
+				}
 			}
 			return out
 		},
@@ -297,13 +300,16 @@ func runC02(c *mon.Ctx) {
 			if b == c.Shard && c.Shard%4 == 1 {
 				n = 1025 // beyond any internal batching threshold, not a multiple of small CPU counts
 			}
+			if c.Thorough() && b == c.Shard && c.Shard == 6 {
+				n = 65537 // beyond 16-bit counts
+			}
+			if b == c.Shard && c.Shard%4 == 3 {
+				n = 4097 // beyond 4096 openings, 17*241: not a multiple of any small task count
+			}
 			polys := makePolys(env, rng, 1+rng.Intn(4))
 			s := genStatement(env, rng, n, rng.Intn(10), polys)
 			if s.label == "" && rng.Intn(2) == 0 {
 				s.label = "vt"
-			}
-			if len(s.label) > 100 {
-				s.label = s.label[:20]
 			}
 			pr, _, _, err := s.prove(env)
 			if err != nil {
@@ -327,7 +333,7 @@ func runC02(c *mon.Ctx) {
 				}
 				return
 			}
-			if (!refSeen["honest|"+ncl] && c02owner(c, "honest|"+ncl)) || allRef {
+			if (!refSeen["honest|"+ncl] && c02owner(c, "honest|"+ncl)) || allRef || n > 4000 || (len(s.label) > 1000 && b%2 == 0) {
 				refSeen["honest|"+ncl] = true
 				rok, rerr := base.refVerify(env, b%3 == 0)
 				c.Count("reference_verifier_decisions", 1)
